@@ -423,11 +423,14 @@ def build(case):
     def snap_def(s):
         sid = s["id"]
         kwd = "dict(%s)" % ", ".join("%s=%s" % (a, a) for a in s["args"])
+        # for even snapshot ids every parameter after the first has a default of its own (the snapshot is always
+        # named explicitly): the capture must still receive the call's values
+        cparams = ", ".join(("%s=H_MISSING" % a) if (sid % 2 == 0 and ix >= 1) else a for ix, a in enumerate(s["args"]))
         if s["coroFn"]:
-            lines.append("async def cap_%d(%s):" % (sid, ", ".join(s["args"])))
+            lines.append("async def cap_%d(%s):" % (sid, cparams))
             lines.append("    return await H_acap(%d, %s)" % (sid, kwd))
         else:
-            lines.append("def cap_%d(%s):" % (sid, ", ".join(s["args"])))
+            lines.append("def cap_%d(%s):" % (sid, cparams))
             lines.append("    return H_cap(%d, %s)" % (sid, kwd))
 
     EN = ", enabled=True" if case.get("enabledExplicit") else ""
@@ -591,7 +594,13 @@ def _drive(coro):
     except StopIteration as e:
         return e.value
     coro.close()
-    raise common.Infra("coroutine suspended unexpectedly")
+    # the library itself suspended (or needed a running event loop) where the user's awaitables do not suspend: an
+    # observable difference, reported as the outcome of the call
+    raise UnexpectedSuspension("the call suspended at %r although no user awaitable suspends" % (y,))
+
+
+class UnexpectedSuspension(Exception):
+    pass
 
 
 def run(case, keep=False):
